@@ -22,6 +22,8 @@ import time
 ROOT = os.path.dirname(os.path.dirname(os.path.abspath(__file__)))
 HARNESS = os.path.join(ROOT, "harness")
 BUILD = os.path.join(ROOT, ".build")
+# sensitivity runs against scratch copies write their evidence/replays elsewhere (VERIF_OUTROOT), never into /verif
+OUTROOT = os.environ.get("VERIF_OUTROOT", ROOT)
 sys.path.insert(0, os.path.join(ROOT, "tools"))
 from config import PROPS  # noqa: E402
 
@@ -196,7 +198,7 @@ def run_units(pid, tier, seed):
             infra = True
             continue
         # save replay material
-        rdir = os.path.join(ROOT, "replays", pid)
+        rdir = os.path.join(OUTROOT, "replays", pid)
         os.makedirs(rdir, exist_ok=True)
         stamp = "%s-%s-s%d-k%d" % (j["u"]["name"], tier, seed, j["k"])
         logcopy = os.path.join(rdir, stamp + ".log")
@@ -341,10 +343,10 @@ def write_evidence(pid, tier, seed, outdir, results, violations, wall, infra):
     }
     if infra:
         ev["coverage"]["inconclusive"] = True
-    os.makedirs(os.path.join(ROOT, "evidence"), exist_ok=True)
-    tmp = os.path.join(ROOT, "evidence", pid + ".json.tmp")
+    os.makedirs(os.path.join(OUTROOT, "evidence"), exist_ok=True)
+    tmp = os.path.join(OUTROOT, "evidence", pid + ".json.tmp")
     json.dump(ev, open(tmp, "w"), indent=1, default=str)
-    os.replace(tmp, os.path.join(ROOT, "evidence", pid + ".json"))
+    os.replace(tmp, os.path.join(OUTROOT, "evidence", pid + ".json"))
 
 
 def replay(pid, path):
